@@ -16,12 +16,23 @@ func verifPollHook(queue any, scheduledTime time.Time) {
 	}
 }
 
-// VerifAddHook, if set, is called by Queue.Add between the shutdown check and the insertion of the element. It
-// receives the scheduled time of the element.
-var VerifAddHook func(scheduledTime time.Time)
+// VerifAddHook, if set, is called by Queue.Add between the shutdown check and the insertion of the element (while the
+// heap lock is held). It receives the queue (a *Queue[T]) and the scheduled time of the element.
+var VerifAddHook func(queue any, scheduledTime time.Time)
 
-func verifAddHook(scheduledTime time.Time) {
+func verifAddHook(queue any, scheduledTime time.Time) {
 	if hook := VerifAddHook; hook != nil {
-		hook(scheduledTime)
+		hook(queue, scheduledTime)
+	}
+}
+
+// VerifPopHook, if set, is called by Queue.Poll right after it popped an element, while the heap lock is still held
+// (so that the order of polls and insertions can be observed). It receives the queue (a *Queue[T]) and the scheduled
+// time of the polled element. It must not block.
+var VerifPopHook func(queue any, scheduledTime time.Time)
+
+func verifPopHook(queue any, scheduledTime time.Time) {
+	if hook := VerifPopHook; hook != nil {
+		hook(queue, scheduledTime)
 	}
 }
